@@ -17,6 +17,7 @@
 //verif:stub (*encoding/json.Decoder).UseNumber -> stubUseNumber
 //verif:stub (*encoding/json.Decoder).Decode -> stubDecodeS
 //verif:stub (*encoding/json.Decoder).Token -> stubTokenS
+//verif:stub strings.EqualFold -> stubEqualFoldS
 //verif:stub (crypto.Hash).Available -> stubHashAvail
 //verif:stub (crypto.Hash).New -> stubHashNewS
 //verif:stub crypto/rsa.SignPSS -> stubSignPSS
@@ -265,8 +266,50 @@ func structToMap(s jwsProtectedHeader) map[string]interface{} {
 	return m
 }
 
-func textField(m map[string]interface{}, k string, dst *string) error {
+// ---- letter case: encoding/json fills a struct ignoring the case of keys, member by member in the order of the text
+// (json.Marshal writes a map's keys sorted), so the last member matching a field wins. With foldModelS on, the key of
+// the first extended attribute may differ from ONE specified key only in letter case, and may sort after it.
+var (
+	foldModelS bool
+	foldIdxS   = -1
+	foldAfterS bool
+)
+
+func variantKeyS() (string, bool) {
+	if foldIdxS < 0 || len(attrsS) == 0 {
+		return "", false
+	}
+	t, isText := attrsS[0].key.(string)
+	return t, isText
+}
+
+// member: what the struct field of specified key k is decoded from
+func member(m map[string]interface{}, k string) (interface{}, bool) {
+	if vk, ok := variantKeyS(); ok && k == specKeysS[foldIdxS] {
+		if vv, has := m[vk]; has {
+			if _, exact := m[k]; !exact || foldAfterS {
+				return vv, true
+			}
+		}
+	}
 	v, ok := m[k]
+	return v, ok
+}
+
+func stubEqualFoldS(a, b string) bool {
+	if vk, ok := variantKeyS(); ok {
+		if (rt.Same(a, vk) && b == specKeysS[foldIdxS]) || (rt.Same(b, vk) && a == specKeysS[foldIdxS]) {
+			return true
+		}
+		if rt.Same(a, vk) || rt.Same(b, vk) {
+			return false
+		}
+	}
+	return rt.StrEq(a, b)
+}
+
+func textField(m map[string]interface{}, k string, dst *string) error {
+	v, ok := member(m, k)
 	if !ok || v == nil {
 		return nil
 	}
@@ -278,7 +321,7 @@ func textField(m map[string]interface{}, k string, dst *string) error {
 	return nil
 }
 func timeField(m map[string]interface{}, k string, dst **time.Time) error {
-	v, ok := m[k]
+	v, ok := member(m, k)
 	if !ok || v == nil {
 		return nil
 	}
@@ -339,7 +382,7 @@ func mapToStruct(m map[string]interface{}, p *jwsProtectedHeader) error {
 		return err
 	}
 	out.SigningScheme = signature.SigningScheme(scheme)
-	if v, ok := m["crit"]; ok && v != nil {
+	if v, ok := member(m, "crit"); ok && v != nil {
 		l, isList := v.([]interface{})
 		if !isList {
 			return rt.NewEnvError("json.kind")
@@ -543,4 +586,5 @@ func newRequest() {
 	signLogS, signErrS = nil, false
 	keySpecCallsS, chainCallsS = 0, 0
 	attrsS = nil
+	foldIdxS, foldAfterS = -1, false
 }
